@@ -28,13 +28,15 @@ def sh(cmd, **kw):
 def main():
     prop, n = sys.argv[1].upper(), sys.argv[2]
     suite = "--no-suite" not in sys.argv
-    src = f"/tmp/mut/out/{prop}"
+    base = sys.argv[sys.argv.index("--src") + 1] if "--src" in sys.argv else "/tmp/mut/out"
+    store_as = sys.argv[sys.argv.index("--as") + 1] if "--as" in sys.argv else n
+    src = f"{base}/{prop}"
     patch, demo, meta = f"{src}/patch{n}.diff", f"{src}/demo{n}.py", f"{src}/meta{n}.json"
     for f in (patch, demo):
         if not os.path.exists(f):
             print("MISSING", f)
             return 2
-    wt = f"/tmp/vt_seed_{prop}_{n}"
+    wt = f"/tmp/vt_seed_{prop}_{store_as}"
     sh(f"git -C /repo worktree remove --force {wt}")
     shutil.rmtree(wt, ignore_errors=True)
     r = sh(f"git -C /repo worktree add --detach {wt} HEAD")
@@ -72,9 +74,9 @@ def main():
         sh(f"git -C /repo worktree remove --force {wt}")
         shutil.rmtree(wt, ignore_errors=True)
     if not ok:
-        print(f"REJECTED {prop} #{n}")
+        print(f"REJECTED {prop} #{store_as}")
         return 1
-    dst = os.path.join(HERE, "seeded", f"{prop}_{n}")
+    dst = os.path.join(HERE, "seeded", f"{prop}_{store_as}")
     os.makedirs(dst, exist_ok=True)
     shutil.copy(patch, os.path.join(dst, "patch.diff"))
     shutil.copy(demo, os.path.join(dst, "demo.py"))
@@ -94,7 +96,7 @@ def main():
     else:
         verdict = "(check not built yet)"
     json.dump(m, open(os.path.join(dst, "meta.json"), "w"), indent=1)
-    print(f"CONFIRMED {prop} #{n}; ./check {prop} quick on it: {verdict[:300]}")
+    print(f"CONFIRMED {prop} #{store_as}; ./check {prop} quick on it: {verdict[:300]}")
     return 0
 
 
